@@ -1,5 +1,6 @@
 (* C04 — v-for: instances, scoping, restoration, v-else.  Theorems only. *)
-From V Require Import Model.ForHead Proofs.ForHeadP Base.Bytes Base.Val Model.Stack Model.Truthy Model.Loops Proofs.StackP Proofs.LoopsP.
+From V Require Import Model.ForHead Proofs.ForHeadP Base.Bytes Base.Val Model.Stack Model.Truthy Model.Loops Proofs.StackP Proofs.LoopsP Proofs.MapLoopP.
+From Coq Require Import Permutation Sorted.
 
 (* the evaluator that threads the stack through Push / Set / evaluate / Pop (as the code does)
    hands back exactly the stack it was given - every shadowed variable has its outer value again,
@@ -53,9 +54,43 @@ Theorem C04_foreach_missing : forall s p, resolve s p = None -> for_each s p = [
 Proof. exact for_each_missing. Qed.
 Print Assumptions C04_foreach_missing.
 Theorem C04_foreach_non_sequence : forall s p v, resolve s p = Some v ->
-  (forall l, v <> VList l) -> (forall l, v <> VArr l) -> for_each s p = [].
+  (forall l, v <> VList l) -> (forall l, v <> VArr l) -> map_items v = None -> for_each s p = [].
 Proof. exact for_each_scalar. Qed.
 Print Assumptions C04_foreach_non_sequence.
+(* 4b. a map is looped over in the order of its printed keys (stack.go:ForEach sorts rv.MapKeys() by
+       fmt.Sprint), each entry exactly once ... *)
+Theorem C04_foreach_map_in_key_order : forall v m, map_items v = Some m ->
+  exists l, for_each_val v = map snd l /\ StronglySorted kle l /\ Permutation m l.
+Proof. exact for_each_map_sorted_perm. Qed.
+Print Assumptions C04_foreach_map_in_key_order.
+Theorem C04_foreach_map : forall s p m, resolve s p = Some (VMap m) -> for_each s p = map snd (sort_kv m).
+Proof. exact for_each_map. Qed.
+Print Assumptions C04_foreach_map.
+Theorem C04_foreach_map_of_strings : forall s p m, resolve s p = Some (VMapS m) ->
+  for_each s p = map snd (sort_kv (map (fun kv => (fst kv, VStr (snd kv))) m)).
+Proof. exact for_each_maps. Qed.
+Print Assumptions C04_foreach_map_of_strings.
+Theorem C04_foreach_map_int_keys : forall s p m, resolve s p = Some (VMapI m) ->
+  for_each s p = map snd (sort_kv (map (fun kv => (dec_Z (fst kv), snd kv)) m)).
+Proof. exact for_each_mapi. Qed.
+Print Assumptions C04_foreach_map_int_keys.
+(* ... and whichever order the Go runtime lists the map's entries in, the instances are the same, in
+   the same order (also C10: the output is a function of the data, not of the iteration order); the
+   twin that iterates in listing order - the code before repair a8b7926 - is refuted *)
+Theorem C04_map_loop_order_free : forall s s' p p' v v' m m' vars cond body i,
+  resolve s p = Some v -> resolve s' p' = Some v' ->
+  map_items v = Some m -> map_items v' = Some m' -> Permutation m m' -> NoDup (map fst m) ->
+  instances s vars cond body (for_each s p) i = instances s vars cond body (for_each s' p') i.
+Proof. exact map_loop_order_free. Qed.
+Print Assumptions C04_map_loop_order_free.
+Theorem C04_unsorted_map_loop_refuted : exists m m' : list (bytes * val),
+  Permutation m m' /\ NoDup (map fst m) /\ map snd m <> map snd m' /\ map snd (sort_kv m) = map snd (sort_kv m').
+Proof. exact unsorted_map_loop_order_matters. Qed.
+Print Assumptions C04_unsorted_map_loop_refuted.
+Example C04_int_keys_by_spelling :
+  for_each_val (VMapI [(2, VStr (bs "two")); (9, VStr (bs "nine")); (10, VStr (bs "ten"))]%Z)
+  = [VStr (bs "ten"); VStr (bs "two"); VStr (bs "nine")].
+Proof. exact mapi_order. Qed.
 (* 5. the expression environment shows the loop variable inside an instance (also over a root struct) *)
 Theorem C04_envmap_sees_loop_var : forall s x i v, Forall uniq (scopes s) ->
   assocb x (envmap (bind (push s []) [x] i v)) = Some v.
